@@ -661,6 +661,20 @@ def _encrypted_references(o, case, ctx):
             for vname, text in sorted(variants.items()):
                 o.hit("reference_documents")
                 o._call("client.parse_authn_request_response[%s]" % cont, "%s:%s" % (vname, uname), f, text.encode("utf-8"), "any")
+                if cont == "EncryptedAssertion" and vname in ("cipher-data-by-reference", "encrypted-key-by-reference", "key-by-retrieval-method"):
+                    # the same element one layer down: it only comes to light when the outer EncryptedData (genuinely encrypted to this SP, and
+                    # without any reference) has been decrypted - what a decryption pass produces is inbound content like what arrived
+                    inner = re.search(r"<xenc:EncryptedData.*</xenc:EncryptedData>", text, re.S)
+                    outer0 = re.search(r"<xenc:EncryptedData.*</xenc:EncryptedData>", xml, re.S)
+                    if inner and outer0:
+                        try:
+                            wrapped_ed = xk.encrypt_fragment(inner.group(0), cert).decode("utf-8")
+                        except Exception:
+                            o.hit("harness_could_not_build_reference_documents")
+                            continue
+                        nested = xml[:outer0.start()] + wrapped_ed + xml[outer0.end():]
+                        o.hit("reference_documents_one_layer_down")
+                        o._call("client.parse_authn_request_response[%s]" % cont, "%s:%s:inside-cipher-text" % (vname, uname), f, nested.encode("utf-8"), "any")
         # the one use of ds:RetrievalMethod that SAML deployments do make: the EncryptedKey next to the EncryptedData, named by a
         # same-document reference.  Refusing external references must not refuse this.
         key_el = ek.group(0)[len("<ds:KeyInfo>"):-len("</ds:KeyInfo>")].replace("<xenc:EncryptedKey>", '<xenc:EncryptedKey xmlns:xenc="%s" xmlns:ds="%s" Id="peer-key-1">' % (xk.XENC, xk.DS), 1)
